@@ -26,7 +26,7 @@ pub enum PatClass {
 
 const CH1: &[char] = &['a', 'b', 'c', 'd', ' ', 'x', 'z', '0', '-', '\u{1}', '\u{7f}', '\u{0}'];
 const CH2: &[char] = &['é', 'ß', 'ñ', 'Ω', 'ж', '\u{80}', '\u{7ff}'];
-const CH3: &[char] = &['世', '界', '全', 'に', '中', '\u{800}', '\u{ffff}', '€'];
+const CH3: &[char] = &['世', '界', '全', 'に', '中', '\u{800}', '\u{ffff}', '€', '\u{feff}', '\u{fffd}', '\u{2028}', '\u{d7ff}', '\u{e000}', '\u{200b}'];
 const CH4: &[char] = &['😀', '𝄞', '\u{10000}', '\u{10ffff}', '🦀'];
 
 fn rand_char(rng: &mut Rng, small_cp: bool) -> char {
@@ -148,7 +148,8 @@ pub fn gen_spec(rng: &mut Rng, o: &GenOpts) -> (Spec, PatClass) {
             }
         }
         PatClass::Bytes => {
-            let n = rng.range(1, 16);
+            // single-pattern and very small sets are common in practice (magic numbers, markers)
+            let n = *rng.pick(&[1usize, 1, 2, 3, 5, 8, 16]);
             let alpha: &[u8] = &[0x00, 0x01, 0xff, 0xfe, 0x80, b'a', 0x7f, 0xc3];
             for _ in 0..n * 3 {
                 if set.len() >= n {
